@@ -561,7 +561,9 @@ pub fn main(args: &[String]) -> i32 {
         }
     }
     // part 2: pairs of manipulations (random), thorough tier runs until the deadline
-    let pairs_budget = if tier == "thorough" { u64::MAX } else { 1500 };
+    // quick: a third of the time box, thorough: all of it
+    let pairs_budget = u64::MAX;
+    let deadline = if tier == "thorough" { deadline } else { start + (deadline - start) / 3 };
     let mut n_pairs = 0u64;
     while !only_regress && n_pairs < pairs_budget && Instant::now() < deadline {
         let (ca, cb) = rng.pick(&configs).clone();
